@@ -4,7 +4,7 @@ from lib import vlib
 
 REASONS = {
     "C01": {"accepted_unauthentic", "time_printed_for_unauthentic_response", "exit_0_after_unauthentic_response", "verified_flag", "nonce_reused", "nonce_shape"},
-    "C03": {"honest_rejected", "wrong_time_printed", "client_sent_fewer_requests", "verified_flag"},
+    "C03": {"honest_rejected", "wrong_time_printed", "client_sent_fewer_requests", "verified_flag", "client_request_malformed"},
 }
 
 
